@@ -73,7 +73,7 @@ func (g *gbody) stmt(ind, depth int, inLoop, inFin bool) {
 		g.line(ind+1, "log(tag, \"raise\")")
 		g.line(ind+1, "raise exc")
 	}
-	k := g.r.Intn(20)
+	k := g.r.Intn(23)
 	if g.budget <= 0 || depth >= 3 {
 		k = g.r.Intn(6)
 	}
@@ -205,6 +205,40 @@ func (g *gbody) stmt(ind, depth int, inLoop, inFin bool) {
 		g.line(ind, "yield %d", g.val())
 		g.line(ind, "acc = acc + 1")
 		g.line(ind, "yield %s() * 10", f)
+	case 21:
+		// the exception being handled is still the one a bare raise re-raises
+		// after the handler was suspended and resumed
+		g.line(ind, "try:")
+		g.line(ind+1, "try:")
+		g.line(ind+2, "raise ValueError(\"P:r%d\")", g.val())
+		g.line(ind+1, "except ValueError:")
+		g.line(ind+2, "yield %d", g.val())
+		g.line(ind+2, "raise")
+		g.line(ind, "except ValueError as _e2:")
+		g.line(ind+1, "log(tag, \"reraised\", sargs(_e2))")
+	case 19, 20:
+		// re-entrancy: while this frame is executing, something it calls
+		// resumes THIS generator (next / send / a consumer): ValueError, and
+		// the running frame's pending operands are untouched
+		switch g.r.Intn(4) {
+		case 0:
+			g.line(ind, "log(tag, \"poke\", [10, _poke(tag, %d), 30, acc])", g.val())
+		case 1:
+			g.line(ind, "acc = acc + len(fargs(1, _poke(tag, None), 2))")
+			g.line(ind, "yield acc")
+		case 2:
+			g.line(ind, "try:")
+			g.line(ind+1, "for _z in _selfs[\"t\" + str(tag)]:")
+			g.line(ind+2, "log(tag, \"self-item\", _z)")
+			g.line(ind+1, "log(tag, \"self-empty\")")
+			g.line(ind, "except ValueError:")
+			g.line(ind+1, "log(tag, \"self-busy\")")
+		default:
+			g.line(ind, "try:")
+			g.line(ind+1, "log(tag, \"self-list\", list(_selfs[\"t\" + str(tag)]))")
+			g.line(ind, "except ValueError:")
+			g.line(ind+1, "log(tag, \"self-busy\")")
+		}
 	default:
 		g.line(ind, "_x = yield %d", g.val())
 		g.line(ind, "_y = yield (0 if _x is None else _x) + %d", g.val())
@@ -221,6 +255,15 @@ const genBodyPrelude = `class _Ctx:
     def __exit__(self, a, b, c):
         log(self.t[0], "exit", self.t[1], a is None)
         return False
+_selfs = {}
+def _poke(tag, v):
+    # resumes the generator that is running right now
+    try:
+        if v is None:
+            return next(_selfs["t" + str(tag)])
+        return _selfs["t" + str(tag)].send(v)
+    except ValueError:
+        return "busy"
 def _inn(k):
     got = yield k
     if got is not None:
